@@ -25,8 +25,10 @@ for m in re.finditer(r'harness(?:_one_worker)?!\((\w+),', src):
             'num_levels fixed to N=%s, request length fixed to m=%s%s; all duplicate-free requests, all competing completions' % (N, M, extra),
             **(TH if N == '5' else {}))
     elif n.startswith('bubble_sort'):
-        N = n[-1]
-        add('verif_order', n, ['bubble_sort'], FM, 'sequence length fixed to N=%s; all u32 start sequences' % N, **(TH if N == '5' else {}))
+        N = n[13]
+        dom = 'start sequences restricted to permutations of 0..N' if n.endswith('_perm') else 'all u32 start sequences'
+        kw = dict(tier='thorough', timeout=1800 if not n.endswith('_perm') else 1500) if N == '5' else {}
+        add('verif_order', n, ['bubble_sort'], FM, 'sequence length fixed to N=%s; %s' % (N, dom), **kw)
     elif n.startswith('concurrent'):
         N = n[-1]
         add('verif_order', n, ['concurrent_bubble_sort'], FM,
